@@ -130,28 +130,52 @@ def case(args):
                 name = rng.choice(BAD_NAMES)
                 kind = rng.choice(['rc_post', 'rc_put', 'trait_put', 'rc_rename'])
                 q = urllib.parse.quote(name, safe='')
+                mv = {'rc_post': rng.choice([2, 39]), 'rc_put': rng.choice([7, 39]), 'rc_rename': 6,
+                      'trait_put': rng.choice([6, 39])}[kind]
+                old = rng.choice(gen.CUSTOM_RCS)
                 if kind == 'rc_post':
-                    r = _APP.call('POST', '/resource_classes', body={'name': name}, version='1.%d' % rng.choice([2, 39]))
+                    r = _APP.call('POST', '/resource_classes', body={'name': name}, version='1.%d' % mv)
                 elif kind == 'rc_put':
-                    r = _APP.call('PUT', '/resource_classes/%s' % q, version='1.%d' % rng.choice([7, 39]))
+                    r = _APP.call('PUT', '/resource_classes/%s' % q, version='1.%d' % mv)
                 elif kind == 'rc_rename':
-                    r = _APP.call('PUT', '/resource_classes/%s' % rng.choice(gen.CUSTOM_RCS), body={'name': name}, version='1.6')
+                    r = _APP.call('PUT', '/resource_classes/%s' % old, body={'name': name}, version='1.6')
                 else:
-                    r = _APP.call('PUT', '/traits/%s' % q, version='1.%d' % rng.choice([6, 39]))
-                op = {'op': 'raw_' + kind, 'name': name}
+                    r = _APP.call('PUT', '/traits/%s' % q, version='1.%d' % mv)
+                op = {'op': 'raw_' + kind, 'name': name, 'mv': mv}
+                if kind == 'rc_rename':
+                    op['old'] = old
                 hist.append(op)
                 status = r.status
                 if r.status >= 500:
                     vio.append(('c19:5xx:%s:%s' % (kind, 'trailing-newline' if name.endswith('\n') else 'other'), '%s %r -> %s' % (kind, name, r.status)))
-                if r.status < 300:
-                    # the model has no op for it: replay the effect if the name is legal, else it is a violation (monitor below)
-                    if NAME_RE.match(name) and len(name) <= 255:
-                        mop = {'rc_post': {'op': 'rc_post', 'name': name}, 'rc_put': {'op': 'rc_put', 'name': name},
-                               'trait_put': {'op': 'trait_put', 'name': name}}.get(kind)
-                        if mop:
-                            _MODEL.send(mop)
-                        else:
-                            _MODEL.send({'op': 'rc_rename', 'old': r.json and name or name, 'new': name})
+                if NAME_RE.match(name) and len(name) <= 255:
+                    # a legal name: the model has the operation, statuses and tables must agree
+                    mop = {'op': kind, 'mv': mv, 'name': name}
+                    if kind == 'rc_rename':
+                        mop = {'op': 'rc_rename', 'mv': 6, 'old': old, 'new': name}
+                    mr = _MODEL.send(mop)
+                    if 'error' in mr:
+                        vio.append(('corr:driver-error', mr['error']))
+                    elif r.status != mr['status']:
+                        vio.append(('corr:status:raw_%s' % kind, 'real %s model %s' % (r.status, mr['status'])))
+                elif r.status < 400 and kind in ('rc_post', 'rc_rename'):
+                    # an illegal name in a request BODY was accepted (the monitor below also reports the malformed row)
+                    vio.append(('c19:illegal-name-accepted:%s:%s' % (kind, 'trailing-newline' if name.endswith('\n') else 'other'),
+                                '%s %r -> %s' % (kind, name, r.status)))
+                elif r.status < 400:
+                    # an illegal name in the URL was answered with success: the router (third-party `routes`, not
+                    # modelled) may have cut it (its `$` matches before a trailing newline).  What counts for the
+                    # property is the row that now exists: the monitor below checks its form; the model is told the
+                    # name that was actually created so that the histories stay aligned.
+                    now_rc = {n for (n,) in _APP.sql('select name from resource_classes where id >= 10000')}
+                    now_t = {n for (n,) in _APP.sql("select name from traits where name like 'CUSTOM%'")}
+                    m = _MODEL.dump()
+                    for n in sorted(now_rc - {x[0] if isinstance(x, list) else x for x in m.get('custom_rcs', [])}):
+                        if NAME_RE.match(n):
+                            _MODEL.send({'op': 'rc_put', 'mv': 39, 'name': n})
+                    for n in sorted(now_t - set(m.get('custom_traits', []))):
+                        if NAME_RE.match(n):
+                            _MODEL.send({'op': 'trait_put', 'mv': 39, 'name': n})
             else:
                 kind = rng.choice(['rc_post', 'rc_put', 'rc_put', 'rc_rename', 'rc_delete', 'rc_delete', 'trait_put', 'trait_put',
                                    'trait_delete', 'trait_delete', 'inv_add', 'inv_delete', 'rp_traits_set'])
